@@ -137,13 +137,13 @@ def record_high_order(spec):
     ev = []
     for order in spec["orders"]:
         h = (order + 1) // 2
-        N = 4 * h + 40
+        N = 4 * h + 40 if spec.get("kind") != "long" else 70001          # long records: block-wise implementations must be seamless
         deg = min(order, 6)
         coef = rng.uniform(-1, 1, size=deg + 1)
         t = np.arange(N, dtype=float)
         tt = (t - N / 2) / (N / 2)
         data = np.polyval(coef, tt)
-        s = float(rng.uniform(-3, 3)) if spec["kind"] == "frac" else float(rng.integers(-3, 4)) + float(rng.choice([0.0, 0.5, 0.125]))
+        s = float(rng.uniform(-3, 3)) if spec["kind"] in ("frac", "long") else float(rng.integers(-3, 4)) + float(rng.choice([0.0, 0.5, 0.125]))
         fr = np.array([s - np.floor(s)])
         taps = dsp.lagrange_taps(fr, h)[0]
         qsum = abs(float(np.sum(taps)) - 1.0)
@@ -220,6 +220,7 @@ def run(tier):
     rnd = random.Random(sd + 41)
     specs = [dict(seed=rnd.randrange(2 ** 31), kind=["frac", "mixed"][k % 2], orders=[1, 3, 5, 7, 9, 15, 31, 63, 111] if k % 2 == 0 else [11, 21, 41, 81, 101])
              for k in range(6 if tier == "quick" else 40)]
+    specs.append(dict(seed=rnd.randrange(2 ** 31), kind="long", orders=[3, 31]))
     trs = common.pmap(record_high_order, specs, chunksize=1)
     vd, tres = traces.validate("TimeshiftTrace", f"{PID}_trace", trs)
     V.model(tres, "TimeshiftTrace.tla (orders up to 111)")
